@@ -77,7 +77,13 @@ pub fn check_layout(c: &Compiled) -> Result<Layout, String> {
     let mut off = 0;
     for (i, ins) in prog.instructions.iter().enumerate() {
         at.insert(off, i);
-        off += ins.body.op_size();
+        // The length of an instruction is the length of its encoding (not `op_size()`, which is
+        // what the recorded ranges were computed from).
+        let words = ins.assemble().encode().len();
+        if words != ins.body.op_size() {
+            return Err(format!("instruction {i} `{ins}` encodes to {words} words but op_size() says {}", ins.body.op_size()));
+        }
+        off += words;
     }
     let code_size = off;
     let infos = &prog.debug_info.sierra_statement_info;
